@@ -43,7 +43,7 @@ def run_unit(args):
         fatal = []
         try:
             if getattr(ex, "fatal", False):
-                fatal = [r.as_dict() for r in ex.results if r.status != "discharged" and ":purity:" in r.name]
+                fatal = [r.as_dict() for r in ex.results if r.status != "discharged" and (":purity:" in r.name or ":binds-to-interface:" in r.name)]
         except NameError:
             pass
         return {"unit": qualname, "split": split, "results": fatal, "trusted": [], "called": [], "wall": time.time() - t0,
@@ -80,7 +80,7 @@ def run_property(pid, P, tier, repo, seed):
     canary_ok = canary_total = 0
     demoted = set(P.get("demoted_obligations", []))
     unbound = {o["unit"] for o in outs if (o["error"] and o["error"].startswith("unsupported"))
-               or any(":purity:" in r["name"] for r in o["results"])}
+               or any(":purity:" in r["name"] or ":binds-to-interface:" in r["name"] for r in o["results"])}
     seen_unbound = set()
     for o in outs:
         if o["canary"]:
